@@ -143,3 +143,16 @@ func VerifSkipLocalSeq(c *Conn, n uint64) {
 	}
 	atomic.AddUint64(&common.LocalSequenceNumber[epoch], n)
 }
+
+// VerifSkipRemoteSeq advances the highest record number seen from the peer in the given epoch by
+// n: the receiving half of VerifSkipLocalSeq for DTLS 1.3, whose records carry only the low 16
+// bits of their number, so that a receiver cannot follow a jump of more than 2^15 on its own.
+func VerifSkipRemoteSeq(c *Conn, epoch uint16, n uint64) {
+	c.lock.Lock()
+	defer c.lock.Unlock()
+	common := dtlsstate.CommonState(c.state)
+	for len(common.RemoteSequenceNumber) <= int(epoch) {
+		common.RemoteSequenceNumber = append(common.RemoteSequenceNumber, uint64(0))
+	}
+	atomic.AddUint64(&common.RemoteSequenceNumber[epoch], n)
+}
